@@ -191,6 +191,11 @@ def split_items(src, mask, lo, hi):
         if not m:
             raise AnchorLost('cannot parse item at line %d' % (src.count('\n', 0, i) + 1))
         kw = m.group(1)
+        # a path-qualified macro invocation (`pin_project_lite::pin_project! { .. }`): the item kind is the macro's own name
+        pm = re.compile(r'(?:::[A-Za-z_][A-Za-z0-9_]*)+!').match(src, m.end())
+        if pm and not kw.endswith('!'):
+            kw = pm.group(0).rsplit('::', 1)[1]
+            m = pm
         # find end
         j = m.end()
         end = None
